@@ -150,7 +150,7 @@ impl Prop for C03 {
             Leg {
                 name: "random",
                 kind: LegKind::Random {
-                    cases: tier.pick(1500, 40_000),
+                    cases: tier.pick(60000, 500000),
                 },
                 workers: 16,
                 build: Build::Normal,
